@@ -9,7 +9,7 @@ Definition holds_r (r : rpc) : bool := match r with RChk _ | RHold _ | RUnlock =
 Definition in_crit (c : cpc) : bool := match c with CMark | CUnreg | CDrain | CUnlock => true | _ => false end.
 Definition wants (c : cpc) : bool := match c with CLockAcq => true | _ => false end.
 Definition not_before_mark (c : cpc) : bool :=
-  match c with CSend | CLogoutWait | CLockReq | CLockAcq | CMark => false | _ => true end.
+  match c with CCas | CSend | CLogoutWait | CLockReq | CLockAcq | CMark => false | _ => true end.
 Definition past_close (c : cpc) : bool :=
   match c with CUnreg | CDrain | CUnlock | CDone _ | KCancel | KTClose | KEnd => true | _ => false end.
 
@@ -135,7 +135,7 @@ Definition rrank (r : rpc) : Z :=
   end.
 Definition crank (c : cpc) : Z :=
   match c with
-  | CStart => 12 | CSend => 11 | CLogoutWait => 10 | CLockReq => 9 | CLockAcq => 8 | CMark => 7 | CUnreg => 6
+  | CStart => 13 | CCas => 12 | CSend => 11 | CLogoutWait => 10 | CLockReq => 9 | CLockAcq => 8 | CMark => 7 | CUnreg => 6
   | CDrain => 5 | CUnlock => 4 | CDone _ => 3 | KCancel => 2 | KTClose => 1 | KEnd => 0
   end.
 Fixpoint inweight (l : list rin) : Z :=
@@ -218,6 +218,7 @@ Proof.
   unfold closer_done in Hnd.
   destruct (cp s) eqn:Ec; cbn [in_crit wants] in *.
   - (* CStart *) exists LCloser. cbn [step]. unfold closer_step. rewrite Ec, Hwp, Hwh. cbn. eexists; reflexivity.
+  - (* CCas *) exists LCloser. cbn [step]. unfold closer_step. rewrite Ec. eexists; reflexivity.
   - exists LCloser. cbn [step]. unfold closer_step. rewrite Ec. destruct (kind0 s && conn_done s); eexists; reflexivity.
   - (* CLogoutWait: the one-minute context expires at the latest *)
     exists LLogoutTimeout. cbn [step]. rewrite Ec. eexists; reflexivity.
